@@ -339,6 +339,18 @@ def create_bound_calls_unit(ctx):
     return "ok"
 
 
+def _acts_as_identity(r):
+    """no retry given: whatever stands in for it (uberjob's identity, a lambda, None handled by the callee is NOT accepted) returns the function it is
+    given, itself - decided on a probe function, the stand-in being a pure function of its argument"""
+    def probe():
+        return None
+
+    try:
+        return callable(r) and r(probe) is probe
+    except Exception:  # noqa: BLE001
+        return False
+
+
 @unit("runphys.run_physical", props=["C02", "C06", "C10", "C13", "C15", "C16"],
       functions=[(REL, "run_physical"), (REL, "prep_run_physical")],
       assumptions=["contracts of prune_source_literals, run_function_on_graph, _create_bound_call_lookup_and_output_slot (own units)"], min_obligations=5)
@@ -417,11 +429,13 @@ def run_physical_unit(ctx):
     ctx.check("engine-runs-the-pruned-plan's-graph-with-process", bool(e[1] == pruned.graph and callable(e[2]) and getattr(e[2], "__name__", "") == "process"))
     ctx.check("engine-gets-max_workers,max_errors,scheduler-unchanged", bool(e[3] is MW and e[4] is ME and e[5] is SCHED), props=["C10"])
     ctx.check("the-function-the-engine-gets-runs-a-call's-bound-call-once-with(node.fn,the-retry-given-or-identity-when-none)",
-              bool(bc_calls == [(user_fn, RETRY if retry_given else IDENTITY)]), props=["C10", "C04", "C06"], info=repr(bc_calls))
-    seen = OBS if observer_given else (null_observers[0] if len(null_observers) == 1 else None)
-    ctx.check("the-function-the-engine-gets-reports-to-the-observer-given(or-one-null-observer-when-none)",
-              bool(seen is not None and [x[0] for x in seen.ev] == ["running", "completed"] and (observer_given or OBS.ev == [])), props=["C15"],
-              info=repr(getattr(seen, "ev", None)))
+              bool(len(bc_calls) == 1 and bc_calls[0][0] is user_fn and (bc_calls[0][1] is RETRY if retry_given else _acts_as_identity(bc_calls[0][1]))),
+              props=["C10", "C04", "C06"], info=repr(bc_calls))
+    # without an observer the null observer may be created per run or shared: nothing observable is required of it
+    if observer_given:
+        ctx.check("the-function-the-engine-gets-reports-to-the-observer-given", bool([x[0] for x in OBS.ev] == ["running", "completed"]), props=["C15"], info=repr(OBS.ev))
+    else:
+        ctx.check("no-observer-given:the-call-still-runs-and-nothing-is-reported-anywhere-else", bool(OBS.ev == [] and len(bc_calls) == 1), props=["C15"])
     if kind == "ret":
         ctx.check("returns-the-output-slot's-value(None-without-output)", bool(val == "OUTVAL" if has_out else val is None), props=["C02"])
     else:
